@@ -22,6 +22,7 @@ def run(tier, replay=None):
                 ("contexts-depth2", gens.context_sessions(gens.exprs_depth2(), 200000), ("value",)),
                 ("random-sessions", gens.random_sessions(6000, seed, "c01", first_id=400000), ("value",))]
     vs = semcheck.run_families(ck, fams, nontrivial)
+    semcheck.binding_selftest(ck, vs)
     # translation validation + instruction-level trace validation on a slice of the same sessions (CalcVM.tla)
     sl = [v.session for v in vs if v.status == "accept"]
     sl = sl[seed % 3::3][:900] if tier == "quick" else sl[seed % 2::2][:9000]
